@@ -4,12 +4,15 @@ import (
 	"context"
 	"fmt"
 	"io"
+	"slices"
 	"strings"
+	"sync/atomic"
 	"testing"
 	"testing/synctest"
 	"time"
 
 	"github.com/relab/hotstuff"
+	"github.com/relab/hotstuff/security/cert"
 	"github.com/relab/hotstuff/internal/proto/clientpb"
 )
 
@@ -55,6 +58,26 @@ func RunPlan(t *testing.T, p *Plan, want []string, logw io.Writer) *Result {
 		}()
 		synctest.Test(t, func(t *testing.T) {
 			w = newWorld(p, want, logw)
+			cert.VerifQCOrder = nil
+			if p.knob("qcorder", 0) == 1 {
+				// hook H1: the order in which VerifyAggregateQC examines the attested QCs (Go map order in the shipped
+				// build, signer order under the tag) is drawn per call: as sorted, reversed, or rotated
+				var ctr atomic.Uint64
+				cert.VerifQCOrder = func(ids []hotstuff.ID) {
+					r := mix(p.Inner, 0x71636f72, ctr.Add(1))
+					if len(ids) < 2 || r%3 == 0 {
+						return
+					}
+					if r%3 == 1 {
+						slices.Reverse(ids)
+						return
+					}
+					k := int(r/3) % len(ids)
+					rot := append(append([]hotstuff.ID{}, ids[k:]...), ids[:k]...)
+					copy(ids, rot)
+				}
+				defer func() { cert.VerifQCOrder = nil }()
+			}
 			if err := w.setup(); err != nil {
 				res.Harness = err.Error()
 				return
